@@ -21,6 +21,15 @@ import shutil
 from harness import tlc
 from harness.common import MachineryFailure, run_workers
 
+# developer switches (defaults = the registered tiers): VERIF_NPROC caps worker processes and TLC workers,
+# VERIF_SCALE multiplies the sample sizes, VERIF_NO_MC=1 skips the exhaustive runs (mutant trials)
+NPROC = int(os.environ.get("VERIF_NPROC", "16"))
+SCALE = float(os.environ.get("VERIF_SCALE", "1"))
+
+
+def scaled(n):
+    return max(1, int(n * SCALE))
+
 P4 = ["aa", "bb", "cc", "dd"]
 VERSIONS = [[1, 0], [1, 0, 0], [1, 1], [2, 0], [1, 9], [1, 10], [0, 5], [2, 0, 1]]
 PIN_FORMS = ["pin", "pin", "pin", "pin_comment", "pin_padded"]
@@ -387,15 +396,15 @@ def main(ctx):
         label, text, workers = item
         path = os.path.join(ctx.scratch, "mc_%d.cfg" % mcs.index(item))
         open(path, "w").write(text)
-        return tlc.run("Requirements", path, ctx.scratch, timeout=3000, workers=workers, coverage=True)
+        return tlc.run("Requirements", path, ctx.scratch, timeout=3000, workers=min(workers, NPROC), coverage=True)
 
     with ThreadPoolExecutor(max_workers=4) as ex:
         f_mc = [ex.submit(run_mc, it) for it in mcs]
         # (T) histories on the real code, meanwhile
-        jobs = [{"seed": ctx.seed * 1000 + k, "count": ctx.pick(40, 1200), "scratch": ctx.scratch, "quick": ctx.quick} for k in range(16)]
+        jobs = [{"seed": ctx.seed * 1000 + k, "count": scaled(ctx.pick(40, 1200)), "scratch": ctx.scratch, "quick": ctx.quick} for k in range(16)]
         jobs[0]["hists"] = None
         results = run_workers("harness.drivers.c20", "run_histories", jobs + [{"seed": 0, "hists": witnesses(), "scratch": ctx.scratch, "quick": True}],
-                              ctx.scratch, nproc=17)
+                              ctx.scratch, nproc=min(17, NPROC))
         mc_res = [f.result() for f in f_mc]
     for (label, _, _), res in zip(mcs, mc_res):
         if "WITNESS-MISSING" in res.out:
